@@ -1498,12 +1498,12 @@ fn run(ctx: &mut Ctx) {
     let mut shrunk: HashSet<String> = HashSet::new();
     let mut orders: HashSet<u64> = HashSet::new();
     let reps = ctx.by_tier(2, 4);
-    ctx.phase("tiny", ctx.by_tier(1_500, 30_000));
+    ctx.phase("tiny", ctx.by_tier(4_000, 30_000));
     while ctx.within(0.35) {
         let Some(k) = ctx.next_case() else { break };
         do_case(ctx, k, Size::Tiny, reps, &mut shrunk, &mut orders);
     }
-    ctx.phase("random", ctx.by_tier(3_000, 200_000));
+    ctx.phase("random", ctx.by_tier(12_000, 200_000));
     while let Some(k) = ctx.next_case() {
         do_case(ctx, k, Size::Normal, reps, &mut shrunk, &mut orders);
     }
